@@ -30,7 +30,7 @@ Emit ==
                  agg |-> [m \in {"mae", "bias", "diff", "ratio", "rmse", "cmae"} |-> [a \in AggNames |-> Det(m, P, a, Zero)]],
                  quant |-> [m \in {"mae", "bias", "rmse"} |-> [k \in DOMAIN QLevels |-> Det(m, P, "quantile", QLevels[k])]],
                  qlevels |-> [k \in DOMAIN QLevels |-> J(QLevels[k])],
-                 shiftF |-> SetToSeq(FcstShiftInvariant), shiftBoth |-> SetToSeq(CommonShiftInvariant),
+                 shiftF |-> SetToSeq(FcstShiftInvariant), shiftBoth |-> SetToSeq(CommonShiftInvariant), scaleBoth |-> SetToSeq(ScaleInvariant),
                  within |-> [bt \in {"below", "below=", "above", "above=", "within", "=within="} |-> WithinPct(P, bt, R(1), R(2))],
                  impl |-> [alphaindex |-> Alphaindex_AsImplemented(P), leps |-> Leps_AsImplemented(P)]]))
 
@@ -45,4 +45,5 @@ InvNeverBetter == \A m \in DetMetrics : NeverBetter(m, P)
 InvAggConsistency == AggregatorConsistency(P)
 InvOrder == OrderLemmas(Err(P))
 InvShift == ShiftLemmas(P)
+InvScale == N(P) = 0 \/ ScaleLemmas(P)
 =============================================================================
